@@ -2,19 +2,34 @@ from __future__ import annotations
 
 from typing import Any
 
+import jax
+import numpy as np
 from jax import numpy as jnp
 from jaxtyping import Array
 
 
 def try_cast(x: Any) -> Array | None:
     try:
-        x = jnp.asarray(x)
+        array = jnp.asarray(x)
     except Exception:
         # Any conversion failure means "not a member" (e.g. ``jnp.asarray("012")``
         # raises ``SyntaxError``).
         return None
 
-    if jnp.issubdtype(x.dtype, jnp.complexfloating):
+    if jnp.issubdtype(array.dtype, jnp.complexfloating):
         return None
 
-    return x
+    if jnp.issubdtype(array.dtype, jnp.integer) and not isinstance(x, jax.core.Tracer):
+        # Integers beyond the default integer type wrap around silently (without x64
+        # ``np.int64(2**32 + 1)`` becomes 1 and ``np.uint32(2**32 - 1)`` compares as
+        # -1): compare such values in floating point instead.
+        try:
+            wide = np.asarray(x)
+        except Exception:
+            return array
+        if wide.dtype.kind in "iu" and wide.size:
+            info = jnp.iinfo(jnp.asarray(0).dtype)
+            if wide.min() < info.min or wide.max() > info.max:
+                return jnp.asarray(wide.astype(float))
+
+    return array
